@@ -40,6 +40,20 @@ use std::fmt;
 #[derive(Clone, Copy, Eq, Hash, PartialEq, PartialOrd, Ord)]
 pub struct Ttl(u32);
 
+impl Ttl {
+    /// Creates a `Ttl` carrying `raw` exactly as given, without the
+    /// [RFC 2181 § 8] treatment of values with the most significant
+    /// bit set. This is for pseudo-RRs such as OPT, whose TTL field is
+    /// not a time to live at all ([RFC 6891 § 6.1.3] stores the upper
+    /// eight bits of the extended RCODE in its most significant octet).
+    ///
+    /// [RFC 2181 § 8]: https://datatracker.ietf.org/doc/html/rfc2181#section-8
+    /// [RFC 6891 § 6.1.3]: https://datatracker.ietf.org/doc/html/rfc6891#section-6.1.3
+    pub(crate) const fn from_raw_field(raw: u32) -> Self {
+        Self(raw)
+    }
+}
+
 impl From<u32> for Ttl {
     fn from(raw: u32) -> Self {
         if raw > i32::MAX as u32 {
